@@ -12,10 +12,10 @@ Line-protocol driver for C19.
 
 Token grammar (glue, not model):
   value : N | X | I <int> | S <str> | L <n> v1 … vn
-  fn    : ident | join | len | accum | pair | const <value> | btif <value> | raiseif <value>
+  fn    : ident | join | len | accum | pair | skipnone | const <value> | btif <value> | raiseif <value>
   term  : any | eof | chr <str> | set <str> | str <cs> <es> <min> | lit <cs> (_ | V <value>) <0|1>
         | seq <n> t… | cho <n> t… | many <lower> t | until t p | opt <value> t | fb a b | nfb a b
-        | kl a b | kr a b | map <fn> t | lift <fn> <n> t… | wrap t | ref <i> | stag t | etag <0|1> t
+        | kl a b | kr a b | map <fn> t | lift <fn> <n> t… | wrap t | ref <i> | stag t | etag <0|1> t | pm t
 -/
 
 abbrev P (α : Type) := List String → Option (α × List String)
@@ -49,6 +49,7 @@ def pFn : P Fn
   | "mkregex" :: r => some (.mkRegex, r)
   | "negate" :: r => some (.negate, r)
   | "oper" :: r => some (.oper, r)
+  | "skipnone" :: r => some (.skipNone, r)
   | "const" :: r => do let (v, r) ← pVal r; pure (.const v, r)
   | "btif" :: r => do let (v, r) ← pVal r; pure (.backtrackIf v, r)
   | "raiseif" :: r => do let (v, r) ← pVal r; pure (.raiseIf v, r)
@@ -93,6 +94,7 @@ partial def pTerm : P Term
   | "wrap" :: r => do let (t, r) ← pTerm r; pure (.wrapper t, r)
   | "ref" :: i :: r => do let i ← decNat i; pure (.ref i, r)
   | "stag" :: r => do let (t, r) ← pTerm r; pure (.startTag t, r)
+  | "pm" :: r => do let (t, r) ← pTerm r; pure (.mark t, r)
   | "etag" :: ic :: r => do let ic ← decBool ic; let (t, r) ← pTerm r; pure (.endTag t ic, r)
   | _ => none
 partial def pTerms (n : Nat) (r : List String) : Option (List Term × List String) :=
